@@ -96,35 +96,43 @@ Theorem rot_records_below_limit : forall ops,
 Proof. exact (fun ops => r_records_bounded_b code_msg_max_len ops code_msg_max_len_ok). Qed.
 Print Assumptions rot_records_below_limit.
 
-(* Time rotation (repaired code).  For every unit, rotate_mod, zone mode and
-   zone offset, every history of writes (messages of any length) and restarts
+(* Time rotation (repaired code).  rotate_mod >= 1 is a hypothesis of every theorem below: init
+   accepts rotate_mod = 0 and detect() then divides by zero (reported as a candidate defect,
+   findings/C17-candidate-rotate-mod-zero.case); the model's x / 0 = 0 must not make them true there.
+   For every unit, rotate_mod >= 1, zone mode and
+   zone (tz : zone = ANY function instant -> offset given by an initial offset and
+   a list of transitions: fixed offsets, daylight saving switches in both
+   directions, half-hour zones; "own period" is the key of the local civil time
+   as localtime_r gives it, see trot_period_key_is_the_period), every history of writes (messages of any length) and restarts
    whose line times do not run backwards within a handler lifetime (well_timed),
    and pre-existing files that are themselves correctly filed: every record of
    every file lies in the file whose name denotes the period (unit, rotate_mod,
    zone mode) of the record's time stamp. *)
 Theorem trot_line_in_own_period : forall fs0 clock0 u md local tz ops,
+  1 <= md ->
   files_ok u md local tz fs0 ->
   well_timed clock0 ops ->
   let h := t_run_log code_msg_max_len (t_init fs0 clock0 u md local tz) ops in
   forall n c m, fs_get tname_eqb n (t_fs h) = Some c -> In m c ->
     period_of_name md n = period_key u md (brokendown local tz (m_ts m)).
-Proof. exact (trot_log_in_own_period code_msg_max_len). Qed.
+Proof. exact (trot_log_in_own_period_md code_msg_max_len). Qed.
 Print Assumptions trot_line_in_own_period.
 
 (* ... and no record is lost: every record written is in some file (with the
    time the handler used for it).  Needs no assumption on the times. *)
 Theorem trot_every_line_stored : forall fs0 clock0 u md local tz ops l,
+  1 <= md ->
   In l (t_records code_msg_max_len ops) ->
   stored (t_fs (t_run_log code_msg_max_len (t_init fs0 clock0 u md local tz) ops)) l.
-Proof. exact (trot_log_stored code_msg_max_len). Qed.
+Proof. exact (trot_log_stored_md code_msg_max_len). Qed.
 Print Assumptions trot_every_line_stored.
 
 (* Two times with the same file name lie in the same period (a file never mixes
    periods); for rotate_mod = 1 also conversely: one period, one name. *)
-Theorem trot_name_injective_per_period : forall u md t1 t2,
+Theorem trot_name_injective_per_period : forall u md t1 t2, 1 <= md ->
   (t_filename u t1 = t_filename u t2 -> period_key u md t1 = period_key u md t2) /\
   (period_key u 1 t1 = period_key u 1 t2 -> t_filename u t1 = t_filename u t2).
-Proof. exact name_period_both. Qed.
+Proof. exact name_period_both_md. Qed.
 Print Assumptions trot_name_injective_per_period.
 
 (* Working directory.  The process may change directory at any point of a
@@ -166,3 +174,199 @@ Theorem trot_configured_dir_holds_the_rotation : forall fs0 cwd p clock u md loc
     t_fs (t_run_log code_msg_max_len (t_init (g_dir (resolve cwd p) fs0) clock u md local tz) (tops_of ops)).
 Proof. exact (trot_project code_msg_max_len). Qed.
 Print Assumptions trot_configured_dir_holds_the_rotation.
+
+(* Restarts that CHANGE backup_count.  Reading taken from the code: the backup files of a
+   configuration are <path>.1 .. <path>.K, K = max(backup_count, 1) of the configuration in force;
+   a higher-numbered file left by an earlier, larger count is stale (never touched again) and is not
+   one of "the backup files".  A history with count changes is a list of phases (max_bytes,
+   backup_count, operations), each started by destroy + init on the files as they are.  The
+   backups of the LAST configuration oldest..newest + the live file are a contiguous suffix of all
+   records, provided that at every change K -> K' either K' <= K or no file numbered K+1..K' holds
+   anything at that moment (phases_ok); counts that never grow always qualify. *)
+Theorem rot_concat_is_suffix_across_backup_counts : forall ps K fs,
+  phases_ok code_msg_max_len K fs ps ->
+  exists lost, retained K fs ++ p_records code_msg_max_len ps =
+               lost ++ retained (last_K K ps) (r_phases code_msg_max_len fs ps).
+Proof. exact (rot_suffix_across_counts code_msg_max_len). Qed.
+Print Assumptions rot_concat_is_suffix_across_backup_counts.
+
+Theorem rot_non_growing_counts_qualify : forall ps K fs,
+  counts_decrease K ps -> phases_ok code_msg_max_len K fs ps.
+Proof. exact (decrease_ok code_msg_max_len). Qed.
+Print Assumptions rot_non_growing_counts_qualify.
+
+(* Without the proviso the statement is FALSE for the unchanged code: backup_count 3 (four
+   records, each closing a segment), then 1 (two more records: segments are discarded), then 3
+   again: <path>.3 <path>.2 are the stale files of the first configuration, [2] [3], followed by
+   <path>.1 = [6]: records 4 and 5 are missing in between. *)
+Theorem rot_count_increase_over_stale_refuted :
+  let final := r_phases 100 [] cx_phases in
+  map m_id (retained 3 final) = [2; 3; 6] /\
+  map m_id (retained 3 [] ++ p_records 100 cx_phases) = [1; 2; 3; 4; 5; 6] /\
+  ~ (exists lost, retained 3 [] ++ p_records 100 cx_phases = lost ++ retained 3 final) /\
+  ~ phases_ok 100 3 [] cx_phases /\
+  phases_ok 100 3 [] (firstn 2 cx_phases).
+Proof. exact count_increase_over_stale_refuted. Qed.
+Print Assumptions rot_count_increase_over_stale_refuted.
+
+(* ---------------------------------------------------------------------------
+   Calendar.  The broken-down time of the model (civil_from_days, gmtime,
+   localtime of a fixed-offset zone) is the proleptic Gregorian calendar, for
+   EVERY day number z in Z (the model computes over Z with floor division; the C
+   library's gmtime_r / localtime_r are defined where the year fits the int
+   tm_year and fail with EOVERFLOW beyond; the correspondence run compares them
+   on every run).  Specification: is_leap (divisible by 4 and not by 100, or by
+   400), days_in_month (31 / 30 / 28-29), days_from_civil y m d = days of the
+   whole years since 1970 + days of the whole months of y + d - 1;
+   valid_date y m d = 1 <= m <= 12 /\ 1 <= d <= days_in_month y m;
+   valid3 / dfc3 = the same on triples; date_lt = lexicographic order. *)
+
+(* the specification is the calendar: it starts at 1970-01-01 = day 0, a year
+   has 365 or 366 days by the leap rule, a month days_in_month days, a day 1 *)
+Theorem cal_spec_is_the_calendar :
+  days_from_civil 1970 1 1 = 0 /\
+  (forall y, days_from_civil (y + 1) 1 1 = days_from_civil y 1 1 + (if is_leap y then 366 else 365)) /\
+  (forall y m, 1 <= m -> days_from_civil y (m + 1) 1 = days_from_civil y m 1 + days_in_month y m) /\
+  (forall y m d, days_from_civil y m (d + 1) = days_from_civil y m d + 1) /\
+  (forall y, is_leap y = true <-> (y mod 4 = 0 /\ (y mod 100 <> 0 \/ y mod 400 = 0))).
+Proof. exact calendar_spec_shape. Qed.
+Print Assumptions cal_spec_is_the_calendar.
+
+(* for all z: the date is valid and is the date of day z; every valid date is
+   recovered from its day number; both directions are strictly monotone *)
+Theorem cal_civil_from_days_is_gregorian :
+  (forall z, valid3 (civil_from_days z) /\ dfc3 (civil_from_days z) = z) /\
+  (forall y m d, valid_date y m d -> civil_from_days (days_from_civil y m d) = (y, m, d)) /\
+  (forall z1 z2, z1 < z2 <-> date_lt (civil_from_days z1) (civil_from_days z2)) /\
+  (forall a b, valid3 a -> valid3 b -> (date_lt a b <-> dfc3 a < dfc3 b)).
+Proof. exact calendar_is_gregorian. Qed.
+Print Assumptions cal_civil_from_days_is_gregorian.
+
+(* every field of the broken-down time is in its range, for every instant, zone
+   mode and zone offset (so the %02d fields of a file name have two digits) *)
+Theorem cal_fields_in_range : forall local tz s,
+  let t := brokendown local tz s in
+  0 <= tm_sec t <= 59 /\ 0 <= tm_min t <= 59 /\ 0 <= tm_hour t <= 23 /\
+  0 <= tm_mon t <= 11 /\ 1 <= tm_mday t <= days_in_month (tm_year t + 1900) (tm_mon t + 1).
+Proof. exact brokendown_in_range. Qed.
+Print Assumptions cal_fields_in_range.
+
+(* The period key compared by detect() is the period: two instants have the same
+   key iff they lie in the same period as the specification defines it on the
+   zone's clock (zone_sec = the instant, or the instant + the zone offset):
+   same minute / hour / day and same rotate_mod group of the second / minute /
+   hour, or same month and same rotate_mod group of the day of the month
+   (same_period_spec, stated with days_from_civil only) -- for EVERY zone,
+   daylight saving included: in the hour a fall-back switch repeats, the key is
+   the one of the local civil time localtime_r gives, so both passes through
+   01:xx share the files of 01:xx.  Where the zone's clock never steps back
+   (clock_monotone: UTC mode, fixed-offset zones; cal_clock_monotone_cases) the
+   key is monotone in time (lexicographic order), hence a period is an interval
+   of time. *)
+Theorem trot_period_key_is_the_period : forall u md local tz, 1 <= md ->
+  (forall s1 s2,
+     period_key u md (brokendown local tz s1) = period_key u md (brokendown local tz s2) <->
+     same_period_spec u md (zone_sec local tz s1) (zone_sec local tz s2)) /\
+  (clock_monotone local tz -> forall s1 s2, s1 <= s2 ->
+     lex_le (period_key u md (brokendown local tz s1)) (period_key u md (brokendown local tz s2))) /\
+  (clock_monotone local tz -> forall s1 s2 s3, s1 <= s2 <= s3 ->
+     period_key u md (brokendown local tz s1) = period_key u md (brokendown local tz s3) ->
+     period_key u md (brokendown local tz s2) = period_key u md (brokendown local tz s1)).
+Proof. exact period_key_is_the_period_md. Qed.
+Print Assumptions trot_period_key_is_the_period.
+
+Theorem cal_clock_monotone_cases :
+  (forall tz, clock_monotone false tz) /\ (forall local off, clock_monotone local (fixed_zone off)).
+Proof. exact clock_monotone_cases. Qed.
+Print Assumptions cal_clock_monotone_cases.
+
+(* ... so, under the hypotheses of trot_line_in_own_period, any two records of
+   one file lie in the same period of the specification *)
+Theorem trot_file_holds_one_period : forall fs0 clock0 u md local tz ops,
+  1 <= md ->
+  files_ok u md local tz fs0 ->
+  well_timed clock0 ops ->
+  let h := t_run_log code_msg_max_len (t_init fs0 clock0 u md local tz) ops in
+  forall n c m1 m2, fs_get tname_eqb n (t_fs h) = Some c -> In m1 c -> In m2 c ->
+    same_period_spec u md (zone_sec local tz (m_ts m1)) (zone_sec local tz (m_ts m2)).
+Proof. exact (trot_log_same_file_same_period_md code_msg_max_len). Qed.
+Print Assumptions trot_file_holds_one_period.
+
+(* ---------------------------------------------------------------------------
+   Second tie (DESIGN.md 4.4): the integer logic of the handler functions, sliced
+   out of the C text of THIS run (lib/props/c17_slice.py + lib/leaftrans.py ->
+   gen/Params_C17.v) is the model.  Handler fields, struct tm fields, the
+   message time stamp and the results of library calls are integer arguments
+   (0 = NULL for pointers); lt / gt stand for localtime_r / gmtime_r (instant ->
+   field index -> field).  unit_code u = the character of the header for unit u;
+   code_ok = MUGGLE_OK (both re-extracted). *)
+From MV Require Import Lib.Leaf C17.ProofsGen.
+
+(* detect(): for every handler state whose last_tm is a broken-down time (true of
+   every state the model reaches: gen_hypotheses_hold), rotate_mod in 1 .. 2^32-1,
+   every message time stamp ts (0 = none) and clock: the value returned, the new
+   last_sec and the new last_tm are those of t_detect at the instant the model
+   uses, in local or UTC mode, for EVERY zone *)
+Theorem gen_trot_detect_matches_model : forall h ts clock,
+  tm_divisible (t_last_tm h) -> 1 <= t_mod h < 2 ^ 32 ->
+  gen_trot_detect (t_last_sec h)
+    (tm_sec (t_last_tm h)) (tm_min (t_last_tm h)) (tm_hour (t_last_tm h))
+    (tm_mday (t_last_tm h)) (tm_mon (t_last_tm h)) (tm_year (t_last_tm h))
+    (t_mod h) (unit_code (t_unit h)) (if t_local h then 1 else 0) ts clock
+    (fun s k => tm_get (localtime (t_zone h) s) k) (fun s k => tm_get (gmtime s) k)
+  = detect_result (t_detect h (if ts =? 0 then clock else ts)).
+Proof. exact gen_trot_detect_eq. Qed.
+Print Assumptions gen_trot_detect_matches_model.
+
+Theorem gen_hypotheses_hold :
+  (forall fs clock u md local zn, tm_divisible (t_last_tm (t_init fs clock u md local zn))) /\
+  (forall h sec, tm_divisible (t_last_tm h) -> tm_divisible (t_last_tm (fst (t_detect h sec)))).
+Proof. exact (conj init_divisible detect_divisible). Qed.
+Print Assumptions gen_hypotheses_hold.
+
+(* rotate() of the time handler: the file opened is named by the numbers of
+   t_filename, in the shape the model's driver renders them (name_shape); fp is
+   the opened file; MUGGLE_OK is returned (snprintf and fopen succeeding) *)
+Theorem gen_trot_rotate_matches_model : forall u (t : tm) fp snp fopen, 0 <= snp -> fopen <> 0 ->
+  gen_trot_rotate fp (unit_code u) (tm_sec t) (tm_min t) (tm_hour t) (tm_mday t) (tm_mon t) (tm_year t) snp fopen =
+  (code_ok, fopen, name_shape u,
+   nth 0 (t_filename u t) 0, nth 1 (t_filename u t) 0, nth 2 (t_filename u t) 0,
+   nth 3 (t_filename u t) 0, nth 4 (t_filename u t) 0, nth 5 (t_filename u t) 0).
+Proof. exact gen_trot_rotate_eq. Qed.
+Print Assumptions gen_trot_rotate_matches_model.
+
+(* write() of the time handler: truncation as wlen (newline at sizeof(buf)-2 when
+   cut), and the ORDER of the repaired code: detect is called first, rotate only
+   after detect asked for it, the line is handed to fwrite after both; the model's
+   t_log returns the same length *)
+Theorem gen_trot_write_matches_model :
+  (forall fp fmt L dret rret hfp, L < 2 ^ 31 ->
+     gen_trot_write fp fmt L dret rret hfp = trot_write_spec code_msg_max_len fp fmt L dret hfp) /\
+  (forall h clock m, snd (t_log code_msg_max_len h clock m) = wlen code_msg_max_len (m_len m)).
+Proof. exact (conj gen_trot_write_eq (t_log_len code_msg_max_len)). Qed.
+Print Assumptions gen_trot_write_matches_model.
+
+(* write() of the size handler is r_log: value returned, bytes handed to fwrite,
+   offset += bytes WRITTEN, rotation iff offset >= max_bytes, offset after it *)
+Theorem gen_rot_write_matches_model : forall h m fmt rret hfp,
+  fmt <> 0 -> 0 <= m_len m < 2 ^ 31 ->
+  let B := code_msg_max_len in
+  let r := r_log B h m in
+  let rotated := r_open h && (r_offset h + wlen B (m_len m) >=? r_max h) in
+  gen_rot_write (if r_open h then 1 else 0) (r_max h) (r_offset h) fmt (m_len m) rret hfp 0 =
+  (snd r, (if rotated then hfp else if r_open h then 1 else 0), r_offset (fst r), B,
+   nl_index B (m_len m), nl_value B (m_len m), (if r_open h then snd r else -1), if rotated then 1 else 0).
+Proof. exact gen_rot_write_model. Qed.
+Print Assumptions gen_rot_write_matches_model.
+
+(* rotate() of the size handler: running the file operations the three generated
+   pieces describe (remove <path>.backup_count if it exists; the loop, from its
+   initial value while its condition holds: rename <path>.i -> <path>.(i+1); rename
+   <path> -> <path>.1; reopen <path>; offset) on the model's file system gives
+   exactly r_rotate, for every backup_count < 2^31 - 2 and every file system
+   (the loop variable may be the index renamed or that index plus a constant) *)
+Theorem gen_rot_rotate_matches_model : forall h snp fopen,
+  0 <= snp -> fopen <> 0 -> Z.of_nat (r_bc h) < 2 ^ 31 - 2 ->
+  gen_rotate_run h snp fopen = Some (r_fs (r_rotate h), r_offset (r_rotate h), code_ok).
+Proof. exact gen_rot_rotate_run_eq. Qed.
+Print Assumptions gen_rot_rotate_matches_model.
